@@ -245,13 +245,64 @@ def _tail(path, n=6000):
         return "", ""
 
 
-def run_alone(ctx, binary, testname, cwd, extra_env, idx, case_timeout):
-    """Re-runs one case in a fresh single-worker process. Returns (finished, events, out_tail, rc)."""
+def _tree_cpu(pid):
+    """CPU seconds (user+system) consumed so far by pid and its descendants."""
+    total, todo, seen = 0.0, [pid], set()
+    tick = os.sysconf("SC_CLK_TCK")
+    while todo:
+        q = todo.pop()
+        if q in seen:
+            continue
+        seen.add(q)
+        try:
+            st = open("/proc/%d/stat" % q).read()
+            f = st[st.rindex(")") + 2:].split()
+            total += (int(f[11]) + int(f[12])) / float(tick)
+            for t in os.listdir("/proc/%d/task" % q):
+                try:
+                    todo.extend(int(c) for c in open("/proc/%d/task/%s/children" % (q, t)).read().split())
+                except Exception:
+                    pass
+        except Exception:
+            pass
+    return total
+
+
+def run_alone(ctx, binary, testname, cwd, extra_env, idx, case_timeout, idle_after=None):
+    """Re-runs one case in a fresh single-worker process. Returns (finished, events, out_tail, rc).
+    idle_after (seconds): once the case has run that long, a process tree that consumed
+    less than 1 s of CPU during the last 90 s is blocked, not slow - it is stopped with
+    SIGQUIT (goroutine dump in the output) instead of waiting for the whole budget;
+    ctx["_blocked"] then describes what was seen."""
     sh = Shard(0, 1)
     env = dict(extra_env or {})
     env["VERIF_WORKERS"] = "1"
     start_shard(ctx, sh, binary, testname, cwd, env, case_timeout + 300, only=idx, case_timeout=case_timeout)
-    rc = sh.proc.wait()
+    ctx.pop("_blocked", None)
+    if idle_after is None:
+        rc = sh.proc.wait()
+    else:
+        t0 = time.time()
+        window = []
+        while True:
+            try:
+                rc = sh.proc.wait(timeout=10)
+                break
+            except subprocess.TimeoutExpired:
+                pass
+            now = time.time()
+            window.append((now, _tree_cpu(sh.proc.pid)))
+            window = [w for w in window if now - w[0] <= 100]
+            if now - t0 >= idle_after and window[-1][0] - window[0][0] >= 85 and window[-1][1] - window[0][1] < 1.0:
+                ctx["_blocked"] = "run alone it was blocked: %.1f s of CPU in the last %.0f s after %.0f s" % (
+                    window[-1][1] - window[0][1], window[-1][0] - window[0][0], now - t0)
+                subprocess.call(["pkill", "-QUIT", "-P", str(sh.proc.pid)])
+                try:
+                    rc = sh.proc.wait(timeout=60)
+                except subprocess.TimeoutExpired:
+                    sh.proc.kill()
+                    rc = sh.proc.wait()
+                break
     sh.fh.close()
     evs = read_events(sh.logs[-1])
     _, tail = _tail(sh.outs[-1])
@@ -317,7 +368,7 @@ def run_sharded(ctx, binary, testname, cwd, nshards, timeout_s, extra_env=None, 
                         # late case with the long budget would take hours on a tree that hangs
                         skipped_hang_candidates.append(idx)
                         continue
-                    finished, aevs, atail, arc = run_alone(ctx, binary, testname, cwd, extra_env, idx, base_ct * 10)
+                    finished, aevs, atail, arc = run_alone(ctx, binary, testname, cwd, extra_env, idx, base_ct * 10, idle_after=base_ct)
                     if finished:
                         extra_events.append({"ev": "case", "idx": idx, "verdict": "inconclusive", "gen": infl.get("gen"),
                                              "detail": "watchdog (%.0fs) fired once; the case finished when re-run alone" % base_ct})
@@ -327,7 +378,8 @@ def run_sharded(ctx, binary, testname, cwd, nshards, timeout_s, extra_env=None, 
                         hang_confirmed[0] += 1
                         crashes.append({"shard": sh.idx, "rc": arc, "inflight": infl, "kind": "hang", "watchdog": True,
                                         "out_tail": atail, "input_b64": infl.get("_input_b64"),
-                                        "fatal": "case exceeded %.0fs in the shard and %.0fs when run alone" % (base_ct, base_ct * 10)})
+                                        "fatal": ("case exceeded %.0fs in the shard; %s" % (base_ct, ctx["_blocked"])) if ctx.get("_blocked")
+                                        else "case exceeded %.0fs in the shard and %.0fs when run alone" % (base_ct, base_ct * 10)})
                 else:
                     finished, aevs, atail, arc = run_alone(ctx, binary, testname, cwd, extra_env, idx, base_ct)
                     if finished:
